@@ -1,6 +1,11 @@
 package redis
 
-import "fmt"
+import (
+	"errors"
+	"fmt"
+
+	"github.com/mgtv-tech/redis-GunYu/pkg/redis/client/common"
+)
 
 const nodePipelineMaxInFlight = 64
 
@@ -108,6 +113,13 @@ func (p *nodePipeline) run() {
 	// 同一条连接一旦发生协议/网络错误，后续 pending 请求的回复边界已不可信，
 	// 因此要整体失败，而不是继续尝试逐个读出。
 	failPending := func(err error) {
+		// MOVED/ASK 只回答收到它的那一笔请求：排在它后面的请求可能已经被原节点执行，
+		// 如果把同一个重定向错误交给它们，它们会被当成自己的重定向整笔重放（重复执行）。
+		// 因此这里把重定向错误降级成普通的连接错误，由上层按失败处理。
+		var redisErr common.RedisError
+		if errors.As(err, &redisErr) {
+			err = fmt.Errorf("node pipeline connection dropped after an earlier request was redirected: %s", redisErr.Error())
+		}
 		for _, req := range pending {
 			req.complete(nil, err)
 		}
